@@ -621,3 +621,16 @@ Check loop_free_installed :
     ~ looped x rid cid attrs ->
     rx_reach x rid cid attrs = Ok (Some (rx_attrs x attrs)).
 Print Assumptions loop_free_installed.
+
+(* The rtc_filter argument.  process_nlri_change asks RtcFilter::allows about the stored
+   attributes before pre_policy_defaults; the model (with_rtc) asks after it, as a wrapper
+   around the export policy.  The answers coincide, so every statement above, being for
+   all policies, covers calls with an RTC filter. *)
+Theorem rtc_filter_is_a_policy_wrapper :
+  forall acc rts x attrs nh fam il,
+    rtc_allows acc rts (fst (pre_policy_defaults x attrs nh fam il)) = rtc_allows acc rts attrs.
+Proof. exact rtc_allows_pre_policy. Qed.
+Check rtc_filter_is_a_policy_wrapper :
+  forall acc rts x attrs nh fam il,
+    rtc_allows acc rts (fst (pre_policy_defaults x attrs nh fam il)) = rtc_allows acc rts attrs.
+Print Assumptions rtc_filter_is_a_policy_wrapper.
